@@ -37,6 +37,7 @@ from bqskit.ir.gates.constant.s import SGate
 from bqskit.ir.gates.constant.sdg import SdgGate
 from bqskit.ir.gates.constant.sqrtcnot import SqrtCNOTGate
 from bqskit.ir.gates.constant.sqrtiswap import SqrtISwapGate
+from bqskit.ir.gates.constant.sqrtt import SqrtTGate
 from bqskit.ir.gates.constant.swap import SwapGate
 from bqskit.ir.gates.constant.sx import SXGate
 from bqskit.ir.gates.constant.sycamore import SycamoreGate
@@ -239,6 +240,7 @@ class OPENQASMVisitor(Visitor):
         self.gate_defs['cswap'] = GateDef(
             'cswap', 0, 3, ControlledGate(SwapGate()),
         )
+        self.gate_defs['st'] = GateDef('st', 0, 1, SqrtTGate())
         self.gate_defs['sx'] = GateDef('sx', 0, 1, SXGate())
         self.gate_defs['v'] = GateDef('v', 0, 1, SXGate())
         self.gate_defs['syc'] = GateDef('syc', 0, 2, SycamoreGate())
